@@ -366,6 +366,12 @@ class QIds:
         self.lst, self.lo, self.hi = lst, lo, hi
 
 
+class QBoolGen:
+    """(test(x) for x in qlist): a generator of booleans consumed by any() / all()"""
+    def __init__(self, lst, test):
+        self.lst, self.test = lst, test
+
+
 class Havoc:
     """predicate-style loop invariant for one variable: fresh value + facts about it at iteration i"""
     def __init__(self, make, pred):
